@@ -122,14 +122,9 @@ theorem ruleSteps_aug {cx : Ctx} {p0 : GProd} :
     unfold ruleSteps at h
     obtain ⟨st1, h1, h2⟩ := Outcome.bind_eq_ok.mp h
     refine ruleSteps_aug (fun x hx => hne x (by simp [hx])) ?_ h2
-    unfold ruleStep at h1
-    split at h1
-    · cases h1
-    · split at h1
-      · cases h1
-      · split at h1
-        · exact altSteps_aug (hne r (by simp)) ha h1
-        · exact altSteps_aug (st := { st with nextNt := st.nextNt + 1 }) (hne r (by simp)) ha h1
+    rcases ruleStep_ok h1 with ⟨nt, hf, h1⟩ | ⟨hf, h1⟩
+    · exact altSteps_aug (hne r (by simp)) ha h1
+    · exact altSteps_aug (st := { st with nextNt := st.nextNt + 1 }) (hne r (by simp)) ha h1
 
 theorem extract_aug {cx : Ctx} {r0 : Rule} {rules : List Rule} {st : XSt}
     (hne : ∀ r, r ∈ rules → r.name ≠ kAUG) (h : extract cx r0 rules = .ok st) :
@@ -142,21 +137,9 @@ theorem extract_aug {cx : Ctx} {r0 : Rule} {rules : List Rule} {st : XSt}
   · exact ⟨rfl, rfl⟩
 
 /-- a variant that rejects rules named like a terminal has checked every processed rule -/
-theorem ruleSteps_notTerm {cx : Ctx} : ∀ {rules : List Rule} {st st' : XSt}, ruleSteps cx rules st = .ok st' →
-    ∀ r, r ∈ rules → (cx.fx.dupNameErr && cx.termNames.contains r.name) = false
-  | [], _, _, _, r, hr => by simp at hr
-  | x :: xs, st, st', h, r, hr => by
-    unfold ruleSteps at h
-    obtain ⟨st1, h1, h2⟩ := Outcome.bind_eq_ok.mp h
-    rcases List.mem_cons.mp hr with rfl | hr
-    · unfold ruleStep at h1
-      split at h1
-      · cases h1
-      · split at h1
-        · cases h1
-        · rename_i hn
-          simpa using hn
-    · exact ruleSteps_notTerm h2 r hr
+theorem ruleSteps_notTerm {cx : Ctx} {rules : List Rule} {st st' : XSt} (h : ruleSteps cx rules st = .ok st')
+    (r : Rule) (hr : r ∈ rules) : (cx.fx.dupNameErr && cx.termNames.contains r.name) = false :=
+  ruleCheck_notTerm (ruleSteps_checked h r hr)
 
 /-- the first rule is the start symbol, and AUG is the single production `AUG: <first rule>` -/
 theorem build_start {fx : Fixes} {f : File} {g : Grammar} (hc : Clean fx f)
@@ -179,7 +162,7 @@ theorem build_start {fx : Fixes} {f : File} {g : Grammar} (hc : Clean fx f)
       unfold ruleNamesOf
       rw [F.hrules]
       exact List.mem_map_of_mem hr
-    exact (hc.reserved _ this).2.1
+    exact ((hc.derived F).2.2 _ this).2.1
   obtain ⟨haug, hp0⟩ := extract_aug hne F.hext
   -- start
   obtain ⟨hms, hns⟩ := findNt_some F.hstart
